@@ -49,6 +49,9 @@ TEXT = {
     "C20": dict(technique="property-based testing (rapid): metamorphic - case flips of input letters and of pattern letters / class members / range endpoints leave the outcome unchanged",
                 text="F-core and F-accel ASTs compiled with IgnoreCase x inputs x random flip masks x one case-flipped printing of the pattern, through rune and string entry points (the raw-string prefix filter folds ASCII on its own): position, length and all captures are invariant.",
                 note="Letters restricted to fold orbits of size two (ASCII without k/s, Latin-1, Greek, Cyrillic pairs), as the property states.", ref="§6 C20"),
+    "C17": dict(technique="property-based testing (rapid): independent implementation of the documented numbering rule + distinct-token witness per group",
+                text="Random mixes of unnamed, named, explicitly numbered (sparse), duplicate-named, nested and non-capturing groups with (?n)/(?-n) x {default, MaintainCaptureOrder, ECMAScript, RE2 (?P<>)}: predicted numbers/names vs GetGroupNumbers/Names, both lookups, Groups() order and names, GroupByNumber/Name, backreferences by number and name, $n/${name} replacements - each observed through the distinct token the group captures.",
+                note="Explicit numbers are not generated under MaintainCaptureOrder/ECMAScript, duplicates not under ECMAScript (outside the documented rule).", ref="§6 C17"),
 }
 
 PENDING = "check not built yet in this session (work in progress; see DESIGN.md section 6 for the planned generated-input check)"
